@@ -161,6 +161,7 @@ inst!(c17_rank_n65_k1, 12, rank::<65, 1>());
 inst!(c17_rank_n65_k2, 12, rank::<65, 2>());
 inst!(c17_rank_n72_k2, 13, rank::<72, 2>());
 inst!(c17_rank_n128_k2, 20, rank::<128, 2>());
+inst!(c17_rank_n100_k3, 17, rank::<100, 3>());
 inst!(c17_select_n1_k1, 11, select::<1, 1>());
 inst!(c17_select_n7_k1, 11, select::<7, 1>());
 inst!(c17_select_n8_k1, 11, select::<8, 1>());
